@@ -11,9 +11,9 @@ static const Pool &pool(hz::Ctx &ctx) { static Pool p = build_pool(ctx.seed, 2);
 static std::string hexv(const std::vector<uint8_t> &v, size_t max = 48) { return x86::hex(v.data(), std::min(v.size(), max)) + (v.size() > max ? " ..." : ""); }
 
 // ===================================================================== C06
-struct C06Case { std::vector<std::string> lines; std::vector<int> cuts; int start = 0, prefill = 0, combo = DEFAULT_COMBO; bool noise = false; uint64_t pre = 0; int sep = 0 /*0 LF 1 CRLF 2 CR*/; };
-static std::string ser06(const C06Case &c) { std::string s = "C06|" + std::to_string(c.start) + "|" + std::to_string(c.prefill) + "|" + std::to_string(c.combo) + "|" + (c.noise ? "1" : "0") + ":" + std::to_string(c.pre) + ":" + std::to_string(c.sep) + "|"; for (size_t i = 0; i < c.cuts.size(); i++) s += (i ? "," : "") + std::to_string(c.cuts[i]); for (auto &l : c.lines) s += "|" + l; return s; }
-static bool parse06(const std::string &s, C06Case &c) { auto f = split(s, '|'); if (f.size() < 7 || f[0] != "C06") return false; c.start = atoi(f[1].c_str()); c.prefill = atoi(f[2].c_str()); c.combo = atoi(f[3].c_str()); { auto g = split(f[4], ':'); c.noise = g[0] == "1"; c.pre = g.size() > 1 ? strtoull(g[1].c_str(), nullptr, 10) : 0; c.sep = g.size() > 2 ? atoi(g[2].c_str()) : 0; } c.cuts.clear(); for (auto &x : split(f[5], ',')) if (!x.empty()) c.cuts.push_back(atoi(x.c_str())); c.lines.assign(f.begin() + 6, f.end()); return true; }
+struct C06Case { std::vector<std::string> lines; std::vector<int> cuts; int start = 0, prefill = 0, combo = DEFAULT_COMBO; bool noise = false; uint64_t pre = 0; int sep = 0 /*0 LF 1 CRLF 2 CR*/; int tight = 0; /* 1..3: the caller buffer ends 20, 21, 22 bytes behind the start of the last instruction (the least the reserve rule allows) */ };
+static std::string ser06(const C06Case &c) { std::string s = "C06|" + std::to_string(c.start) + "|" + std::to_string(c.prefill) + "|" + std::to_string(c.combo) + "|" + (c.noise ? "1" : "0") + ":" + std::to_string(c.pre) + ":" + std::to_string(c.sep) + ":" + std::to_string(c.tight) + "|"; for (size_t i = 0; i < c.cuts.size(); i++) s += (i ? "," : "") + std::to_string(c.cuts[i]); for (auto &l : c.lines) s += "|" + l; return s; }
+static bool parse06(const std::string &s, C06Case &c) { auto f = split(s, '|'); if (f.size() < 7 || f[0] != "C06") return false; c.start = atoi(f[1].c_str()); c.prefill = atoi(f[2].c_str()); c.combo = atoi(f[3].c_str()); { auto g = split(f[4], ':'); c.noise = g[0] == "1"; c.pre = g.size() > 1 ? strtoull(g[1].c_str(), nullptr, 10) : 0; c.sep = g.size() > 2 ? atoi(g[2].c_str()) : 0; c.tight = g.size() > 3 ? atoi(g[3].c_str()) : 0; } c.cuts.clear(); for (auto &x : split(f[5], ',')) if (!x.empty()) c.cuts.push_back(atoi(x.c_str())); c.lines.assign(f.begin() + 6, f.end()); return true; }
 
 struct HV { bool ok = true; std::string symptom, detail; };
 static void fill(std::vector<uint8_t> &b, int kind, uint64_t seed) { hz::Rng r(seed); for (auto &x : b) x = kind == 0 ? 0x00 : kind == 1 ? 0xff : (uint8_t)r.next(); }
@@ -22,10 +22,12 @@ static HV check06(const C06Case &c) {
   HV v; auto bad = [&](const std::string &s, const std::string &d) { v.ok = false; v.symptom = s; v.detail = d; return v; };
   std::vector<uint8_t> want; for (auto &l : c.lines) { auto b = solo(l, c.combo); if (b.empty()) return bad("harness", "line does not assemble alone: " + l); want.insert(want.end(), b.begin(), b.end()); }
   size_t n = c.start + want.size() + 64; if (n < 64) n = 64;
+  if (c.tight && !c.lines.empty()) { size_t lastlen = solo(c.lines.back(), c.combo).size(); n = c.start + want.size() - lastlen + 20 + (c.tight - 1); }   // non-code lines behind the last instruction need no room
   std::vector<uint8_t> first;
   for (int rep = 0; rep < 4; rep++) {
     std::vector<uint8_t> buf(n); fill(buf, (c.prefill + rep) % 3, 77 + rep);
     std::vector<uint8_t> before = buf;
+    al::heap_fill((unsigned)(rep * 3 + c.start + c.lines.size()));
     assemblyline_t a = asm_create_instance(buf.data(), (int)n);
     if (c.pre && rep == 1) { spec::Opts o = combo_opts(c.combo); prelife(a, c.pre, o.mov, o.swap, o.nobase, c.lines); before = buf; /* the previous life wrote at offset 0 */ } else al::apply_opts(a, combo_opts(c.combo), (unsigned)rep);
     asm_set_offset(a, c.start);
@@ -42,6 +44,7 @@ static HV check06(const C06Case &c) {
     for (int cut : cuts) {
       if (cut <= (int)li && cut != (int)c.lines.size()) continue; if ((size_t)cut > c.lines.size()) cut = (int)c.lines.size();
       std::string chunk; for (; li < (size_t)cut; li++) { if (c.noise && (li % 3) == 0) chunk += li % 2 ? std::string("; comment") + NL : std::string(NL) + "label_x:" + NL; chunk += c.lines[li] + NL; }
+      if (c.noise && cut == (int)c.lines.size()) { static const char *TAIL[] = {"; done", "end_label:", "", "   ", "section .data", "\t; x"}; for (size_t q = 0; q <= c.lines.size() % 3; q++) chunk += std::string(TAIL[(c.lines.size() + q * 5 + c.start) % 6]) + NL; }   // non-code lines behind the last instruction
       if (chunk.empty() && cut != (int)c.lines.size()) continue;
       // the deprecated spelling of the entry point is an entry point too
       rc = (ncall++ & 1) ? assemble_str(a, chunk.c_str()) : asm_assemble_str(a, chunk.c_str()); if (rc != 0) break;
@@ -67,7 +70,7 @@ void prop_c06(hz::Ctx &ctx) {
     for (size_t i = 0; i < P.lines.size(); i += stride) R.push_back(i);
     for (size_t i = 0; i < R.size(); i++) for (size_t j = 0; j < R.size(); j++) {
       if (!ctx.take()) continue;
-      C06Case c; c.lines = {P.lines[R[i]], P.lines[R[j]]}; c.combo = (int)((i * 7 + j * 3 + ctx.seed) % 12); c.start = (int)((i + j) % 5 == 0 ? (i * 13 + j) % 4096 : 0); c.prefill = (int)((i + j) % 3); if ((i ^ j) & 1) c.cuts = {1};
+      C06Case c; c.lines = {P.lines[R[i]], P.lines[R[j]]}; c.combo = (int)((i * 7 + j * 3 + ctx.seed) % 12); c.start = (int)((i + j) % 5 == 0 ? (i * 13 + j) % 4096 : 0); c.prefill = (int)((i + j) % 3); if ((i ^ j) & 1) c.cuts = {1}; if ((i + 2 * j) % 5 == 0) { c.tight = 1 + (int)((i + j) % 3); c.noise = (i & 2) != 0; c.sep = (int)(j % 3); }
       std::string id = ser06(c); if (!ctx.begin(id, c.lines[0] + " / " + c.lines[1])) continue;
       ctx.cls("part:ordered-pairs"); ctx.nontrivial(std::to_string(R[i]) + "," + std::to_string(R[j]));
       HV v = check06(c);
@@ -122,12 +125,12 @@ void prop_c06(hz::Ctx &ctx) {
     C06Case c; if (idx.empty()) idx.push_back(0);
     for (int i : idx) c.lines.push_back(P.lines[(size_t)i % P.lines.size()]);
     for (size_t k = 1; k < c.lines.size() && k < cutflags.size(); k++) if (cutflags[k]) c.cuts.push_back((int)k);
-    c.start = start; c.prefill = prefill; c.combo = combo; c.noise = noise; c.pre = pre % 2 ? (uint64_t)pre : 0; c.sep = sep < 6 ? 0 : sep < 9 ? 1 : 2; return c; },
+    c.start = start; c.prefill = prefill; c.combo = combo; c.noise = noise; c.pre = pre % 2 ? (uint64_t)pre : 0; c.sep = sep < 6 ? 0 : sep < 9 ? 1 : 2; c.tight = (pre >> 3) % 4 == 0 ? 1 + (pre >> 5) % 3 : 0; return c; },
     rc::gen::container<std::vector<int>>(range(0, 1 << 20)), rc::gen::container<std::vector<bool>>(rc::gen::arbitrary<bool>()), range(0, 4097), range(0, 3), range(0, 12), rc::gen::arbitrary<bool>(), range(0, 1 << 20), range(0, 11));
   rc_rounds(ctx, "C06-programs", ctx.thorough() ? 600000 : 80000, 200, [&]() {
     C06Case c = *gen_case;
     std::string id = ser06(c); if (!ctx.begin(id, join(c.lines, "\\n").substr(0, 300))) return;
-    ctx.cls("part:programs"); ctx.cls(c.cuts.empty() ? "calls:one" : "calls:split"); if (c.start) ctx.cls("start:nonzero"); if (c.pre) ctx.cls("instance:previous-life"); if (c.sep) ctx.cls(c.sep == 1 ? "newline:crlf" : "newline:cr");
+    ctx.cls("part:programs"); ctx.cls(c.cuts.empty() ? "calls:one" : "calls:split"); if (c.start) ctx.cls("start:nonzero"); if (c.pre) ctx.cls("instance:previous-life"); if (c.sep) ctx.cls(c.sep == 1 ? "newline:crlf" : "newline:cr"); if (c.tight) ctx.cls("buffer:ends-with-the-reserve"); if (c.noise) ctx.cls("non-code-lines");
     if (c.lines.size() >= 2) ctx.nontrivial(id);
     HV v = check06(c);
     if (ctx.want_sample()) ctx.put_sample(std::to_string(c.lines.size()) + " lines, " + std::to_string(c.cuts.size() + 1) + " calls, start " + std::to_string(c.start) + ", first line \"" + c.lines[0] + "\" -> " + (v.ok ? "concatenation" : v.symptom));
@@ -163,9 +166,9 @@ static std::string check_fitting(const std::vector<std::vector<uint8_t>> &insns,
 }
 static int expected_breaks(const std::vector<std::vector<uint8_t>> &insns, size_t start, size_t c) { if (c < 2) return 0; int n = 0; size_t pos = start; for (auto &b : insns) { if (pos / c != (pos + b.size() - 1) / c) n++; pos += b.size(); } return n; }
 
-struct ChunkCase { long long bigc = 0; /* if non-zero the chunk size really used (values beyond int) */ bool count_first = false; /* C13: a counting call between asm_set_chunk_size and the fitted call */ uint64_t pre = 0; /* seed of the instance's previous life, 0 = fresh */ bool internal = false; std::vector<std::string> lines; int c = 16, start = 0, combo = DEFAULT_COMBO; int toggle = 0; /* C13: 0 none, 1 off-then-on between two calls, 2 on-then-off */ int calls = 1; bool counting = false; };
-static std::string serck(const ChunkCase &k) { std::string s = std::string(k.counting ? "C14" : "C13") + "|" + std::to_string(k.c) + "|" + std::to_string(k.start) + "|" + std::to_string(k.combo) + "|" + std::to_string(k.toggle) + "|" + std::to_string(k.calls + 100 * (k.internal ? 1 : 0)) + ":" + std::to_string(k.pre) + ":" + std::to_string(k.bigc) + ":" + (k.count_first ? "1" : "0"); for (auto &l : k.lines) s += "|" + l; return s; }
-static bool parseck(const std::string &s, ChunkCase &k) { auto f = split(s, '|'); if (f.size() < 7) return false; k.counting = f[0] == "C14"; k.c = atoi(f[1].c_str()); k.start = atoi(f[2].c_str()); k.combo = atoi(f[3].c_str()); k.toggle = atoi(f[4].c_str()); { auto g = split(f[5], ':'); int cc = atoi(g[0].c_str()); k.internal = cc >= 100; k.calls = cc % 100; k.pre = g.size() > 1 ? strtoull(g[1].c_str(), nullptr, 10) : 0; k.bigc = g.size() > 2 ? atoll(g[2].c_str()) : 0; k.count_first = g.size() > 3 && g[3] == "1"; } k.lines.assign(f.begin() + 6, f.end()); return true; }
+struct ChunkCase { long long bigc = 0; /* if non-zero the chunk size really used (values beyond int) */ bool count_first = false; /* C13: a counting call between asm_set_chunk_size and the fitted call */ uint64_t pre = 0; /* seed of the instance's previous life, 0 = fresh */ bool internal = false; std::vector<std::string> lines; int c = 16, start = 0, combo = DEFAULT_COMBO; int toggle = 0; /* C13: 0 none, 1 off-then-on between two calls, 2 on-then-off */ int calls = 1; bool counting = false; int tight = 0; /* C14: 1..3 = the caller buffer ends 20..22 bytes behind the start of the last instruction */ };
+static std::string serck(const ChunkCase &k) { std::string s = std::string(k.counting ? "C14" : "C13") + "|" + std::to_string(k.c) + "|" + std::to_string(k.start) + "|" + std::to_string(k.combo) + "|" + std::to_string(k.toggle) + "|" + std::to_string(k.calls + 100 * (k.internal ? 1 : 0)) + ":" + std::to_string(k.pre) + ":" + std::to_string(k.bigc) + ":" + (k.count_first ? "1" : "0") + ":" + std::to_string(k.tight); for (auto &l : k.lines) s += "|" + l; return s; }
+static bool parseck(const std::string &s, ChunkCase &k) { auto f = split(s, '|'); if (f.size() < 7) return false; k.counting = f[0] == "C14"; k.c = atoi(f[1].c_str()); k.start = atoi(f[2].c_str()); k.combo = atoi(f[3].c_str()); k.toggle = atoi(f[4].c_str()); { auto g = split(f[5], ':'); int cc = atoi(g[0].c_str()); k.internal = cc >= 100; k.calls = cc % 100; k.pre = g.size() > 1 ? strtoull(g[1].c_str(), nullptr, 10) : 0; k.bigc = g.size() > 2 ? atoll(g[2].c_str()) : 0; k.count_first = g.size() > 3 && g[3] == "1"; k.tight = g.size() > 4 ? atoi(g[4].c_str()) : 0; } k.lines.assign(f.begin() + 6, f.end()); return true; }
 
 static HV check13(const ChunkCase &k, size_t *pads = nullptr) {
   HV v; auto bad = [&](const std::string &s, const std::string &d) { v.ok = false; v.symptom = s; v.detail = d; return v; };
@@ -173,6 +176,7 @@ static HV check13(const ChunkCase &k, size_t *pads = nullptr) {
   size_t n = k.start + total + (size_t)std::min(k.c, 4096) * ins.size() / 1 + 128; if (n > (1u << 20)) n = 1u << 20;
   n = k.start + total + ins.size() * 16 + 128;
   std::vector<uint8_t> ext(n, 0xcc);
+  al::heap_fill((unsigned)k.c + (unsigned)k.start * 7u + (unsigned)k.lines.size());
   assemblyline_t a = asm_create_instance(k.internal ? nullptr : ext.data(), (int)n); al::apply_opts(a, combo_opts(k.combo), (unsigned)k.start); asm_set_offset(a, k.start);
   const size_t CHUNK = k.bigc ? (size_t)k.bigc : (size_t)std::max(k.c, 0);
   // toggling: the program is split in two halves; fitting is only active for the half the toggle selects
@@ -208,7 +212,8 @@ static HV check13(const ChunkCase &k, size_t *pads = nullptr) {
 static HV check14(const ChunkCase &k, int *expected_out = nullptr) {
   HV v; auto bad = [&](const std::string &s, const std::string &d) { v.ok = false; v.symptom = s; v.detail = d; return v; };
   std::vector<std::vector<uint8_t>> ins; size_t total = 0; for (auto &l : k.lines) { ins.push_back(solo(l, k.combo)); if (ins.back().empty()) return bad("harness", "line does not assemble alone: " + l); total += ins.back().size(); }
-  size_t n = k.start + total * std::max(1, k.calls) + 128; std::vector<uint8_t> ext(n, 0xcc);
+  size_t n = k.start + total * std::max(1, k.calls) + 128; if (k.tight && !k.internal) n = k.start + total * std::max(1, k.calls) - ins.back().size() + 20 + (k.tight - 1); std::vector<uint8_t> ext(n, 0xcc);
+  al::heap_fill((unsigned)k.c * 5u + (unsigned)k.start + (unsigned)k.lines.size());
   assemblyline_t a = asm_create_instance(k.internal ? nullptr : ext.data(), (int)n);
   if (k.pre) { spec::Opts o = combo_opts(k.combo); prelife(a, k.pre, o.mov, o.swap, o.nobase, k.lines); } else al::apply_opts(a, combo_opts(k.combo));
   asm_set_offset(a, k.start);
@@ -287,9 +292,10 @@ void prop_c14(hz::Ctx &ctx) {
   for (int c : cs) for (int s = 0; s < std::min(std::max(c, 1), 80); s++) for (size_t r = 0; r < reps.size(); r++) {
     if (!ctx.take()) continue;
     ChunkCase k; k.counting = true; k.c = c; k.start = c > 80 ? c - 40 + s : s; k.combo = (int)((c + s + r) & 7) % 12; k.calls = 1 + (int)((s + r) % 3); if ((s + 2 * r + c) % 3 == 0) k.pre = ctx.seed * 1000 + s * 31 + r; k.lines = {reps[r], reps[(r + s) % reps.size()], reps[(r * 5 + 1) % reps.size()]};
+    if ((s + r + c) % 4 == 1) { k.tight = 1 + (int)((s + r) % 3); k.pre = 0; }
     std::string id = serck(k); if (!ctx.begin(id, join(k.lines, "\\n"))) continue;
     int want = 0; HV v = check14(k, &want);
-    ctx.cls("part:exhaustive"); if (c < 2) ctx.cls("c:below2"); if (k.calls > 1) ctx.cls("calls:repeated"); if (k.pre) ctx.cls("instance:previous-life");
+    ctx.cls("part:exhaustive"); if (k.tight) ctx.cls("buffer:ends-with-the-reserve"); if (c < 2) ctx.cls("c:below2"); if (k.calls > 1) ctx.cls("calls:repeated"); if (k.pre) ctx.cls("instance:previous-life");
     if (want >= 1 && k.start != 0) ctx.nontrivial(id);
     if (ctx.want_sample()) ctx.put_sample("counting, chunk " + std::to_string(c) + ", start " + std::to_string(k.start) + ", " + std::to_string(k.calls) + " call(s): " + join(k.lines, " ; ") + " -> " + (v.ok ? "count " + std::to_string(want) : v.symptom));
     if (!v.ok) ctx.fail(failck(k, v));
@@ -307,14 +313,30 @@ void prop_c14(hz::Ctx &ctx) {
       if (!v.ok) { hz::Failure f = failck(k, v); f.caseid = serck(k); f.text = std::to_string(nl) + " lines, library-managed buffer [chunk " + std::to_string(k.c) + "]"; ctx.fail(f); }
     }
   }
+  // programs that emit nothing (empty, comments, labels, directives, blank lines) at every offset of small caller buffers: the
+  // counting call reports 0 and otherwise does what the plain call does
+  {
+    static const char *EMPTY[] = {"", "; only a comment\n", "lbl:\n", "\n\n", "section .text\n; x\n\tglobal f\n", "   ", "; no newline"};
+    for (int n = 0; n <= 45; n++) for (int start = 0; start <= n; start++) for (int e = 0; e < 7; e++) for (int c : {-1, 0, 1, 2, 16, 4096}) {
+      if (!ctx.take()) continue;
+      std::string id = "C14E|" + std::to_string(n) + "|" + std::to_string(start) + "|" + std::to_string(e) + "|" + std::to_string(c); if (!ctx.begin(id, hz::jesc(EMPTY[e]))) continue;
+      ctx.cls("part:programs-without-instructions"); if (n - start < 20) ctx.nontrivial(id);
+      std::vector<uint8_t> b1(n + 1, 0xcc), b2(n + 1, 0xcc); al::heap_fill((unsigned)(n + start)); assemblyline_t a1 = asm_create_instance(b1.data(), n); al::heap_fill((unsigned)(n + start + 1)); assemblyline_t a2 = asm_create_instance(b2.data(), n);
+      asm_set_offset(a1, start); asm_set_offset(a2, start); std::string t = EMPTY[e]; std::vector<char> w(t.begin(), t.end()); w.push_back(0); int cnt = -7;
+      int r1 = (start & 1) ? assemble_string_counting_chunks(a1, w.data(), c, &cnt) : asm_assemble_string_counting_chunks(a1, w.data(), c, &cnt), r2 = asm_assemble_str(a2, t.c_str()); int o1 = asm_get_offset(a1), o2 = asm_get_offset(a2);
+      asm_destroy_instance(a1); asm_destroy_instance(a2);
+      std::string why; if (r1 != r2) why = "counting call returned " + std::to_string(r1) + ", plain call " + std::to_string(r2); else if (o1 != o2) why = "offset " + std::to_string(o1) + " vs " + std::to_string(o2); else if (r1 == 0 && cnt != 0) why = "count " + std::to_string(cnt) + " for a program without instructions"; else if (b1 != b2) why = "buffers differ";
+      if (!why.empty()) { hz::Failure f; f.caseid = id; f.text = "program without instructions \"" + hz::jesc(EMPTY[e]) + "\", buffer of " + std::to_string(n) + " bytes, offset " + std::to_string(start) + ", chunk " + std::to_string(c); f.symptom = "count"; f.detail = why; f.tags = {"mn:program", "form:empty", "sym:count"}; ctx.fail(f); }
+    }
+  }
   auto gen_case = rc::gen::apply([&P](std::vector<int> idx, int c, int start, int combo, int calls, int pre, bool internal) {
     ChunkCase k; k.counting = true; if (idx.empty()) idx.push_back(1); for (int i : idx) k.lines.push_back(P.lines[(size_t)i % P.lines.size()]);
-    static const int CS[] = {-5, -1, 0, 1, 2, 3, 4, 5, 7, 8, 11, 13, 15, 16, 17, 32, 33, 64, 100, 4096, 65536, 1 << 30}; k.c = CS[c % 22]; k.start = start; k.combo = combo; k.calls = calls; k.pre = pre % 3 == 0 ? 0 : (uint64_t)pre; k.internal = internal; return k; },
+    static const int CS[] = {-5, -1, 0, 1, 2, 3, 4, 5, 7, 8, 11, 13, 15, 16, 17, 32, 33, 64, 100, 4096, 65536, 1 << 30}; k.c = CS[c % 22]; k.start = start; k.combo = combo; k.calls = calls; k.pre = pre % 3 == 0 ? 0 : (uint64_t)pre; k.internal = internal; k.tight = (pre >> 4) % 3 == 0 ? 1 + (pre >> 7) % 3 : 0; if (k.tight) k.pre = 0; return k; },
     rc::gen::container<std::vector<int>>(range(0, 1 << 20)), range(0, 22), range(0, 300), range(0, 12), range(1, 4), range(0, 1 << 20), rc::gen::arbitrary<bool>());
   rc_rounds(ctx, "C14-programs", ctx.thorough() ? 3000000 : 300000, 60, [&]() {
     ChunkCase k = *gen_case; std::string id = serck(k); if (!ctx.begin(id, join(k.lines, "\\n").substr(0, 300))) return;
     int want = 0; HV v = check14(k, &want);
-    ctx.cls("part:programs"); if (k.c < 2) ctx.cls("c:below2"); if (k.calls > 1) ctx.cls("calls:repeated"); if (k.pre) ctx.cls("instance:previous-life"); if (k.internal) ctx.cls("buffer:library-managed"); if (want >= 1 && k.start != 0) ctx.nontrivial(id);
+    ctx.cls("part:programs"); if (k.c < 2) ctx.cls("c:below2"); if (k.calls > 1) ctx.cls("calls:repeated"); if (k.pre) ctx.cls("instance:previous-life"); if (k.internal) ctx.cls("buffer:library-managed"); if (k.tight && !k.internal) ctx.cls("buffer:ends-with-the-reserve"); if (want >= 1 && k.start != 0) ctx.nontrivial(id);
     if (ctx.want_sample()) ctx.put_sample(std::to_string(k.lines.size()) + " lines, chunk " + std::to_string(k.c) + ", start " + std::to_string(k.start) + ", " + std::to_string(k.calls) + " call(s) -> " + (v.ok ? "count " + std::to_string(want) : v.symptom));
     if (!v.ok) { hz::Failure f = failck(k, v); if (ctx.match_known(f.tags).empty()) { rc_report(f); RC_FAIL(v.symptom + ": " + v.detail); } else ctx.fail(f); }
   });
@@ -348,12 +370,15 @@ struct Obs { int mov = -1, swap = -1, nobase = -1; std::string err; };
 static Obs observe(assemblyline_t a, uint8_t *buf, bool alias = false) {
   Obs o; int saved = asm_get_offset(a);
   auto probe = [&](const char *line, x86::Insn &I) { asm_set_offset(a, 0); if ((alias ? assemble_str(a, line) : asm_assemble_str(a, line)) != 0) { o.err = std::string("probe failed: ") + line; return false; } int n = asm_get_offset(a); I = x86::decode(buf, n); if (!I.ok) { o.err = std::string("probe undecodable: ") + line; return false; } return true; };
-  x86::Insn a1, a2, s1, n1;
-  if (probe("mov rax, 0x7fffffff", a1) && probe("mov rax, 0x000000007fffffff", a2) && probe("lea r15, [rax+rsp]", s1) && probe("lea r15, [2*rax]", n1)) {
+  x86::Insn a1, a2, s1, n1, n2, s2;
+  if (probe("mov rax, 0x7fffffff", a1) && probe("mov rax, 0x000000007fffffff", a2) && probe("lea r15, [rax+rsp]", s1) && probe("lea r15, [2*rax]", n1) && probe("lea r15, [1*rcx]", n2) && probe("add dword [r12d+esp+8], 1", s2)) {
     bool nar1 = a1.ops[0].width == 32, nar2 = a2.ops[0].width == 32;
     o.mov = (!nar1 && !nar2) ? 0 : (nar1 && nar2) ? 1 : (nar1 && !nar2) ? 2 : -2;
     o.swap = s1.ops[1].mem.index >= 0 ? 1 : 0;
     o.nobase = n1.ops[1].mem.base >= 0 ? 1 : 0;
+    // the option is one switch for every shape it governs: [1*reg] follows [2*reg], [r12d+esp+8] follows [rax+rsp]
+    if ((n2.ops[1].mem.base >= 0 ? 1 : 0) != o.nobase) o.nobase = -2;
+    if ((s2.ops[0].mem.index >= 0 ? 1 : 0) != o.swap) o.swap = -2;
   }
   asm_set_offset(a, saved);
   return o;
@@ -366,7 +391,7 @@ static std::string text12(const std::vector<SetCmd> &h) { std::string s; for (au
 static HV check12(const std::vector<SetCmd> &h, int ninst) {
   HV v; auto bad = [&](const std::string &s, const std::string &d) { v.ok = false; v.symptom = s; v.detail = d; return v; };
   std::vector<std::vector<uint8_t>> bufs(ninst, std::vector<uint8_t>(256, 0)); std::vector<assemblyline_t> as(ninst); std::vector<Model> ms(ninst);
-  for (int i = 0; i < ninst; i++) as[i] = asm_create_instance(bufs[i].data(), 256);
+  for (int i = 0; i < ninst; i++) { al::heap_fill((unsigned)h.size() * 3u + (unsigned)i * 5u + (h.empty() ? 0u : (unsigned)h[0].value + (unsigned)h[0].setter)); as[i] = asm_create_instance(bufs[i].data(), 256); }
   auto verify = [&](const std::string &when) -> bool {
     for (int i = 0; i < ninst; i++) { Obs o = observe(as[i], bufs[i].data(), ((h.size() + i + when.size()) & 3) == 3);
       if (!o.err.empty()) { bad("probe", o.err + " " + when); return false; }
@@ -459,7 +484,9 @@ static HV check15(const Pool &P, const C15Case &c) {
   HV v; auto bad = [&](const std::string &s, const std::string &d) { v.ok = false; v.symptom = s; v.detail = d; return v; };
   const bool internal = c.n < 0; const int N = internal ? 40000 : c.n;   // the library-managed buffer grows to wherever the offset is set
   /* one spare byte: a NULL buffer pointer would select the library-managed buffer */ std::vector<uint8_t> buf(N + 1, 0xcc), fresh(N + 1, 0xcc); std::vector<std::vector<uint8_t>> obuf(2, std::vector<uint8_t>(4096, 0)); assemblyline_t other[2] = {nullptr, nullptr};
-  assemblyline_t a = asm_create_instance(internal ? nullptr : buf.data(), N), f = asm_create_instance(internal ? nullptr : fresh.data(), N);
+  unsigned fsel = (unsigned)(c.k + c.hist.size() * 3 + c.final.a);
+  al::heap_fill(fsel); assemblyline_t a = asm_create_instance(internal ? nullptr : buf.data(), N);
+  al::heap_fill(fsel + 1 + fsel % 3); assemblyline_t f = asm_create_instance(internal ? nullptr : fresh.data(), N);   // the fresh instance's heap block holds other bytes than the old one's
   auto code = [&](assemblyline_t x) { return (const uint8_t *)asm_get_code(x); };
   int explicit_off = 0; bool after_failure = false;
   Model mopt; size_t last_chunk = 0;   // the CURRENT options and chunk setting are all the fresh instance gets
@@ -478,7 +505,7 @@ static HV check15(const Pool &P, const C15Case &c) {
         if (h.kind == 4 && o.rc == 0) { /* a bad line must fail: C10's subject; here only consistency matters */ }
         after_failure = o.rc != 0; if (!after_failure) explicit_off = o.off;
         break; }
-      case 6: { int i = h.a & 1; if (!other[i]) other[i] = asm_create_instance(h.b & 1 ? obuf[i].data() : nullptr, 4096); break; }
+      case 6: { int i = h.a & 1; al::heap_fill((unsigned)h.a); if (!other[i]) other[i] = asm_create_instance(h.b & 1 ? obuf[i].data() : nullptr, 4096); break; }
       case 7: { int i = h.a & 1; if (other[i]) { asm_destroy_instance(other[i]); other[i] = nullptr; } break; }
       case 8: { int i = h.a & 1; if (other[i]) { asm_set_offset(other[i], 0); std::string p = program_for(P, h.a, 3, (h.b & 3) == 0 ? 1 : -1); asm_assemble_str(other[i], p.c_str()); } break; }
       case 9: { int i = h.c & 1; if (other[i]) real_apply(other[i], h.a % 5, h.b); break; }
@@ -552,6 +579,10 @@ int replay_hist(const std::string &prop, const std::string &caseid, uint64_t see
     printf("%d lines in %d calls on the library-managed buffer: %s\n", nlines, ncalls, ok ? "OK" : "FAIL"); return ok ? 0 : 1;
   }
   if (caseid.compare(0, 4, "C06|") == 0) { C06Case c; if (!parse06(caseid, c)) return 2; HV v = check06(c); printf("%s", join(c.lines).c_str()); if (v.ok) { printf("OK\n"); return 0; } printf("FAIL %s : %s\n", v.symptom.c_str(), v.detail.c_str()); return 1; }
+  if (caseid.compare(0, 5, "C14E|") == 0) { auto f = split(caseid, '|'); if (f.size() != 5) return 2; static const char *EMPTY[] = {"", "; only a comment\n", "lbl:\n", "\n\n", "section .text\n; x\n\tglobal f\n", "   ", "; no newline"};
+    int n = atoi(f[1].c_str()), start = atoi(f[2].c_str()), e = atoi(f[3].c_str()), c = atoi(f[4].c_str()); std::vector<uint8_t> b1(n + 1, 0xcc), b2(n + 1, 0xcc); assemblyline_t a1 = asm_create_instance(b1.data(), n), a2 = asm_create_instance(b2.data(), n); asm_set_offset(a1, start); asm_set_offset(a2, start);
+    std::string t = EMPTY[e % 7]; std::vector<char> w(t.begin(), t.end()); w.push_back(0); int cnt = -7; int r1 = asm_assemble_string_counting_chunks(a1, w.data(), c, &cnt), r2 = asm_assemble_str(a2, t.c_str()); int o1 = asm_get_offset(a1), o2 = asm_get_offset(a2); asm_destroy_instance(a1); asm_destroy_instance(a2);
+    bool ok = r1 == r2 && o1 == o2 && (r1 != 0 || cnt == 0); printf("counting rc=%d off=%d cnt=%d ; plain rc=%d off=%d : %s\n", r1, o1, cnt, r2, o2, ok ? "OK" : "FAIL"); return ok ? 0 : 1; }
   if (caseid.compare(0, 4, "C13|") == 0 || caseid.compare(0, 4, "C14|") == 0) { ChunkCase k; if (!parseck(caseid, k)) return 2; HV v = k.counting ? check14(k) : check13(k); printf("%s[chunk %d, start %d]\n", join(k.lines).c_str(), k.c, k.start); if (v.ok) { printf("OK\n"); return 0; } printf("FAIL %s : %s\n", v.symptom.c_str(), v.detail.c_str()); return 1; }
   if (caseid.compare(0, 4, "C12|") == 0) { std::vector<SetCmd> h; int n = 1; if (!parse12(caseid, h, n)) return 2; HV v = check12(h, n); printf("%s\n", text12(h).c_str()); if (v.ok) { printf("OK\n"); return 0; } printf("FAIL %s : %s\n", v.symptom.c_str(), v.detail.c_str()); return 1; }
   if (caseid.compare(0, 4, "C15|") == 0) { C15Case c; if (!parse15(caseid, c)) return 2; ctx.seed = c.poolseed; const Pool &P = pool(ctx); HV v = check15(P, c); printf("%s\n", text15(P, c).c_str()); if (v.ok) { printf("OK\n"); return 0; } printf("FAIL %s : %s\n", v.symptom.c_str(), v.detail.c_str()); return 1; }
